@@ -254,6 +254,20 @@ def run_impl(case):
         obs["raises"] = "zerodiv"
     except Exception as exc:
         obs["raises"] = "%s: %s" % (type(exc).__name__, exc)
+    # a function that was generated earlier must keep enforcing ITS relation after other relations are compiled:
+    # compile a decoy that binds the same names (tol, rel, and every name of the case's locals) to other values
+    if "y" in obs:
+        decoy = {"tol": 7.0, "rel": 3.0}
+        for name in (locs or {}):
+            decoy[name] = 11.0 if name not in ("tol", "rel") else decoy[name]
+        try:
+            with warnings.catch_warnings():
+                warnings.simplefilter("ignore")
+                S.generate_constraint(S.generate_solvers("x0 > x1 + 2", locals=decoy, nvars=max(2, case["n"])))([0.0] * max(2, case["n"]))
+                y2 = cf(list(case["x"]))
+            obs["y_again"] = [float(v) for v in y2]
+        except Exception as exc:
+            obs["y_again"] = "%s: %s" % (type(exc).__name__, exc)
     return obs
 
 
@@ -320,6 +334,9 @@ def monitor(case, obs):
         return out                              # outside the property's hypotheses: correspondence only
     x0 = case["x"]; y = obs["y"]; rels = case["rels"]
     tol = (case["locals"] or {}).get("tol", 1e-15); rel = (case["locals"] or {}).get("rel", 1e-15)
+    ya = obs.get("y_again")
+    if ya is not None and (isinstance(ya, str) or len(ya) != len(y) or any(not (num_eq(a, b) or (a != a and b != b)) for a, b in zip(ya, y))):
+        out.append(("solver/changes-after-later-compilation", "the generated constraints function returned %r, and after another relation was compiled (other tol/rel/locals) it returns %r for the same input %r" % (y, ya, x0)))
     lhs = {r[0] for r in rels}
     # frame
     if len(y) != len(x0) or any(not num_eq(y[j], x0[j]) for j in range(len(x0)) if j not in lhs):
